@@ -62,18 +62,23 @@ def run(c, prog, ctx):
         "proposed.root]). R1-R3 imply root(compact(p)) = root(p) for every p by substitution.")
     c.assume("the midstate wrapper types' from_midstate/to_byte_array are inverse views of the same 32 bytes (checked as R1.wrapper)")
     # serialize_hash helpers
-    sh = {}
-    for owner in ("dynafed::FullParams::calculate_root", "dynafed::FullParams::extra_root", "dynafed::Params::calculate_root"):
-        f = prog.fn(owner + "::serialize_hash")
+    # the leaf hash helper(s): today three identical nested fns, possibly one shared fn after a clean-up; found through
+    # the call terms themselves
+    helpers = set()
+    for fn_ in ("dynafed::FullParams::calculate_root", "dynafed::FullParams::extra_root", "dynafed::Params::calculate_root"):
+        helpers |= set(re.findall(r"(dynafed::[A-Za-z_:]*serialize_hash)\(", show(Prov(prog.fn(fn_).body).local(0), -30)))
+    for hp in sorted(helpers):
+        f = prog.fn(hp)
         ret = show(Prov(f.body).local(0), -30)
         effs = [(e["callee"], tuple(show(a, -30) for a in e.get("args", ()))) for e in effects(f.body) if e["kind"] == "mutarg"]
-        sh[owner] = (ret, tuple(effs))
         ENG = "hashes::Sha256d::engine()"
         ok = ((re.sub(r"@engine#\d+", "", ret) == "hashes::Sha256d::from_engine(%s)" % ENG
                and [(cn, tuple(re.sub(r"@engine#\d+", "", a) for a in args)) for cn, args in effs] == [("encode::Encodable::consensus_encode", ("arg1", ENG))])
               # the same function written through the one-shot helpers
               or (ret == "hashes::Sha256d::hash(encode::serialize(arg1))" and not effs))
-        c.inst("R1.serialize-hash", owner, ok, "sha256d engine fed exactly once with consensus_encode(obj): returns %s, engine writes %s" % (ret, effs), f.where(), f.path)
+        c.inst("R1.serialize-hash", hp, ok, "sha256d engine fed exactly once with consensus_encode(obj): returns %s, engine writes %s" % (ret, effs), f.where(), f.path)
+    c.inst("R1.serialize-hash", "every leaf goes through a checked hash helper", len(helpers) >= 1, "helpers %s" % sorted(helpers), None, "dynafed::*::serialize_hash")
+    HRE = r"dynafed::[A-Za-z_:]*serialize_hash"
     # wrapper views
     for w in ("dynafed::ElidedRoot", "dynafed::ParamsRoot", "block::DynafedRoot"):
         n = w.split("::")[-1]
@@ -84,12 +89,11 @@ def run(c, prog, ctx):
                "from_midstate = %s, to_byte_array = %s, from_byte_array = %s" % (fm, tb, fb), None, w)
     ff = prog.fn("dynafed::FullParams::calculate_root")
     fp = prog.fn("dynafed::Params::calculate_root")
-    tf = _strip_wrappers(norm(show(Prov(ff.body).local(0), -30)))
+    tf = re.sub(HRE, "H", _strip_wrappers(norm(show(Prov(ff.body).local(0), -30))))
     tp_raw = Prov(fp.body).local(0)
     alts = tp_raw[1] if tp_raw[0] == "phi" else (tp_raw,)
-    tps = [_strip_wrappers(norm(show(a, -30))) for a in alts]
-    SH_F = "dynafed::FullParams::calculate_root::serialize_hash"
-    SH_P = "dynafed::Params::calculate_root::serialize_hash"
+    tps = [re.sub(HRE, "H", _strip_wrappers(norm(show(a, -30)))) for a in alts]
+    SH_F = SH_P = "H"
     want_f = ("dynafed::ParamsRoot::from_midstate(%s(array{BYTES(%s(array{hashes::Sha256d::to_byte_array(%s(arg1.signblockscript)), hashes::Sha256d::to_byte_array(%s(arg1.signblock_witness_limit))})), "
               "dynafed::ElidedRoot::to_byte_array(dynafed::FullParams::extra_root(arg1))}))" % (FMR, FMR, SH_F, SH_F))
     c.inst("R1.full-root", "FullParams: fmr([bytes(fmr([H(script), H(limit)])), extra_root])", tf == want_f, "extracted %s" % tf, ff.where(), ff.path)
@@ -137,8 +141,8 @@ def run(c, prog, ctx):
         c.inst("R1.accessor", acc, rws == want, "rows %s" % rws, fa.where(), fa.path)
     # ---- R2 extra roots
     fe = prog.fn("dynafed::FullParams::extra_root")
-    te = norm(show(Prov(fe.body).local(0), -30))
-    SH_E = "dynafed::FullParams::extra_root::serialize_hash"
+    te = re.sub(HRE, "H", norm(show(Prov(fe.body).local(0), -30)))
+    SH_E = "H"
     want_e = "dynafed::ElidedRoot::from_midstate(%s(array{hashes::Sha256d::to_byte_array(%s(arg1.fedpeg_program)), hashes::Sha256d::to_byte_array(%s(arg1.fedpegscript)), hashes::Sha256d::to_byte_array(%s(arg1.extension_space))}))" % (FMR, SH_E, SH_E, SH_E)
     c.inst("R2.full-extra-root", "fmr([H(fedpeg_program), H(fedpegscript), H(extension_space)])", te == want_e, "extracted %s" % te, fe.where(), fe.path)
     fx = prog.fn("dynafed::Params::extra_root")
